@@ -88,8 +88,9 @@ def _is_comment(l):
 
 
 def object_lines(problem):
-    """the lines every object formats to, in the writer's order (on a deep copy: formatting mutates)"""
-    p = copy.deepcopy(problem)
+    """the lines every object formats to, in the writer's order. Formatting may adjust the trees: hand in a
+    problem that is not used for anything else (read the text once more)."""
+    p = problem
     v = p.mcnp_version
     out = {"message": [], "title": "", "cells": [], "surfaces": [], "data": [], "data_owner": []}
     if p.message:
@@ -115,7 +116,16 @@ def drop_card_candidates(den_blocks_lines):
 
 
 def shrink_text(text, still_fails, limit=128):
-    """drop whole cards (and comment lines) while `still_fails(text)`; cards are found with the harness splitter"""
+    """drop whole cards (and comment lines) while `still_fails(text)` and the text stays a well-formed problem
+    (a shrunk case must remain inside the property's quantifier); cards are found with the harness splitter"""
+    from . import spec
+
+    inner = still_fails
+
+    def still_fails(t):  # noqa: F811
+        ok, _ = spec.well_formed(spec.denote(t, limit))
+        return ok and inner(t)
+
     lines = text.split("\n")
     # group line indices into removable units: comment lines alone, cards = first line + continuations
     units, cur = [], []
